@@ -334,6 +334,9 @@ func (c *Catalogue) Over(elems []*Type, r *hx.Rand) []*Type {
 		out = append(out, M(k, B("int")))
 	}
 	out = append(out, Ar(0, B("int")), Ar(3, B("bool")), St())
+	// []byte in every position (the generators special-case it)
+	bs := Sl(B("uint8"))
+	out = append(out, Sl(bs), Ar(2, bs), M(B("string"), bs), St(bs, B("int")), P(bs), Sl(c.NU8), St(Sl(c.NU8)), P(St(bs)), Sl(St(bs)))
 	return out
 }
 
